@@ -249,8 +249,11 @@ def worker(ctx):
                 p.render()
                 texts[g.filename] = join_first_lines(p) if (g is root and case_id % 2 == 0) else "\n".join(p.lines) + "\n"
                 printers[g.basename] = p
+            subdirs = {g.filename: g.subdir for g in root.all_files()}
+            os.makedirs(os.path.join(d, "sub"), exist_ok=True)
             for fn, t in texts.items():
-                with open(os.path.join(d, fn), "w") as fh:
+                os.makedirs(os.path.join(d, subdirs.get(fn, "")), exist_ok=True)
+                with open(os.path.join(d, subdirs.get(fn, ""), fn), "w") as fh:
                     fh.write(t)
             with open(os.path.join(d, "okimport.bitproto"), "w") as fh:
                 fh.write("proto okimport\nmessage OkImported { bool a = 1 }\n")
